@@ -16,6 +16,7 @@ mod families;
 mod xradau;
 mod xbdf;
 mod xcont;
+mod xbdfnum;
 
 fn main() {
     let args: Vec<String> = std::env::args().collect();
@@ -27,6 +28,7 @@ fn main() {
     match args[1].as_str() {
         "order-probe" => order::run(rest),
         "dense-check" => dense::run(rest),
+        "bdf-dense-check" => dense::bdf_dense(rest),
         "xmatrix" => matrix::run(rest),
         "matrix-oracle" => matrix::oracle(rest),
         "xsolout" => solout::run(rest),
@@ -36,6 +38,7 @@ fn main() {
         "xradau" => xradau::run(rest),
         "xbdf" => xbdf::run(rest),
         "xcont" => xcont::run(rest),
+        "xbdfnum" => xbdfnum::run(rest),
         "sym-check" => families::sym(rest),
         "mass-check" => families::mass(rest),
         "accuracy-check" => families::accuracy(rest),
